@@ -6,6 +6,7 @@ import Vore.Lemmas.Replace
 import Vore.Lemmas.GenR
 import Vore.Lemmas.SimR
 import Vore.Lemmas.TotalR
+import Vore.Lemmas.Flatten
 /-!
 # Driver — line protocol: one case per input line, one result line per case.
 `<id> TAB <op> TAB <field> …`
@@ -156,6 +157,26 @@ def specAffordable (text : Bytes) (bc : List BCmd) : Bool :=
   | some (.ok _) => true
   | _ => false
 
+deriving instance Repr for Vore.Spec.RExpr
+
+/-- a fingerprint of the flattened form (calls expanded 4 levels deep, subroutine wrappers dropped) of every
+search command: spellings with the same fingerprint fall under `C13_spellings_same_vm_results` -/
+def flatInfo (cmds : List Cmd) : String :=
+  let rec go (cs : List Cmd) (G : Spec.GEnv) (acc : List String) : List String :=
+    match cs with
+    | [] => acc.reverse
+    | c :: rest =>
+      let fp (e : Expr) : String :=
+        match Spec.resolveBody G e with
+        | none => "-"
+        | some r => toString (hash (toString (repr (flattenN (Spec.procsOf r) 4 r))))
+      match c with
+      | .find _ e => go rest G (fp e :: acc)
+      | .replace _ e _ => go rest G (fp e :: acc)
+      | .setPattern x e p => go rest ((x, e, p) :: G) acc
+      | _ => go rest G acc
+  ",".intercalate (go cmds [] [])
+
 /-- property predicates evaluated on the implementation's result (4th field) -/
 def predsOn (cmds : List Cmd) (bc : List BCmd) (lens : List Nat) (text : Bytes) (impl : String) : String :=
   match parseMatches impl with
@@ -187,7 +208,7 @@ def handleRun (fields : List String) : String :=
           | some bc2 => "\tCODE2 " ++ bytecodeStr bc2
           | none => ""
         let gi := guardInfo cmds
-        let guard := if gi.1 == 0 then "" else s!"\tGUARD {gi.2}/{gi.1}"
+        let guard := (if gi.1 == 0 then "" else s!"\tGUARD {gi.2}/{gi.1}") ++ "\tFLAT " ++ flatInfo cmds
         "CODE " ++ bytecodeStr bc ++ "\tRES " ++ resStr (runProgram procFuel vmFuel "text".toUTF8.toList t bc) ++ pred ++ code2 ++ guard
     | _, _ => "BADCASE"
   | _ => "BADCASE"
